@@ -194,6 +194,136 @@ void h_stream_bits(void)
     }
     VCANARY();
 }
+
+/* ---- operations that allocate: copy / merge / alloc_from_opaque, against an allocating manager stub -------------------
+ * The stub hands out ONE fresh single-segment block over its own area (room for NB octets after a symbolic prepend) or
+ * fails; what is written into it is what the contract talks about:
+ *   copy(skip, n)  : accepted ==> the new block is one segment of n' octets (n' = n, or size - skip for -1) and
+ *                    new[j] == view[j + skip] wherever 0 <= j + skip < size (ghost j); the source is untouched;
+ *                    refused ==> the request is invalid or the allocation failed, and nothing stays allocated;
+ *   merge          : accepted ==> *ubuf_p is that new block and the old chain was released once; refused ==> *ubuf_p and
+ *                    the old chain are untouched;
+ *   alloc_from_opaque(p, n) : new[j] == p[j];
+ *   equal          : OK <==> same size and same octets. */
+static struct ubuf_block g_cp; static uint8_t g_cparea[NB + 2]; static int g_cp_allocs, g_cp_req; static bool g_cp_given;
+static struct ubuf *stub_cp_alloc(struct ubuf_mgr *mgr, uint32_t signature, va_list args)
+{
+    if (signature != UBUF_ALLOC_BLOCK) { g_stub_bad = true; return NULL; }
+    int size = va_arg(args, int);
+    g_cp_allocs++; g_cp_req = size;
+    if (size < 0 || size > NB || g_cp_allocs > 1 || (VS_CHOICE(alloc_fails) & 1)) return NULL;
+    g_cp.ubuf.mgr = mgr; uchain_init(&g_cp.ubuf.uchain);
+    g_cp.offset = VS_CHOICE(alloc_prepend) & 1 ? 2 : 0; g_cp.size = size; g_cp.total_size = size; g_cp.buffer = g_cparea; g_cp.map = false;
+    g_cp.next_ubuf = NULL; g_cp.cached_ubuf = &g_cp.ubuf; g_cp.cached_offset = 0; g_cp.cached_end_ubuf = NULL;
+    g_fresh = &g_cp.ubuf; g_cp_given = true;
+    return &g_cp.ubuf;
+}
+#define BUILD_ALLOC() g_bmgr.ubuf_alloc = stub_cp_alloc; g_cp_allocs = 0; g_cp_given = false; g_cp_req = 0; \
+    for (int k_ = 0; k_ < NB + 2; k_++) g_cparea[k_] = 0xEE
+static inline bool spec_fresh_wf(size_t n)
+{
+    return g_cp.next_ubuf == NULL && g_cp.size == n && g_cp.total_size == n && g_cp.buffer == g_cparea && g_cp.offset + n <= NB + 2 &&
+           g_cp.cached_ubuf == &g_cp.ubuf && g_cp.cached_offset == 0;
+}
+void h_copy(void)
+{
+    BUILD_BLOCK(); BUILD_ALLOC(); VIN(int, cskip); VIN(int, new_size); VIN(uint8_t, gj);
+    VASSUME(new_size >= -1 && cskip > -2147483647 - 1 + NB);            /* documented arguments: a size, or -1 for 'to the end' */
+    struct ubuf *c = ubuf_block_copy(&g_bmgr, ubuf, cskip, new_size);
+    long long total = (long long)g_o.total, ns = new_size == -1 ? total - cskip : new_size;
+    bool valid = cskip <= total && ns >= 0 && ns >= -(long long)cskip;
+    /* octets actually taken from the source; when there are none the code refuses (ubuf_block_write cannot map an empty range): tolerated, an error leaves everything unchanged */
+    long long ext_a = ns - (cskip < 0 ? -(long long)cskip : 0), ext_b = total - (cskip > 0 ? cskip : 0), ext = ext_a < ext_b ? ext_a : ext_b;
+    VPOST(spec_quiet(ubuf));                                           /* the source keeps size, content and structure */
+    if (c != NULL) {
+        VPOST(valid && c == &g_cp.ubuf && g_nfree == 0 && spec_fresh_wf((size_t)ns));
+        long long src = (long long)gj + cskip; uint8_t v;
+        VPOST(gj >= ns || src < 0 || src >= total || (spec_byte(ubuf, (size_t)src, &v) && g_cparea[g_cp.offset + gj] == v));
+    } else {
+        /* refused: invalid request, or the manager could not allocate; a block obtained on the way was given back */
+        VPOST(!valid || g_cp_allocs >= 1);
+        VPOST(!g_cp_given || (g_nfree == 1 && g_freed[0] == &g_cp.ubuf));
+        VPOST(!valid || ns > NB || !g_cp_given || ext <= 0);                       /* a valid request fails only because the allocation did */
+    }
+    VPOST(g_cp_allocs <= 1 && (g_cp_allocs == 0 || !valid || (long long)g_cp_req == ns));
+    VCANARY();
+}
+void h_merge(void)
+{
+    BUILD_BLOCK(); BUILD_ALLOC(); VIN(int, cskip); VIN(int, new_size); VIN(uint8_t, gj);
+    VASSUME(new_size >= -1 && cskip > -2147483647 - 1 + NB);
+    struct ubuf *p = ubuf;
+    int ret = ubuf_block_merge(&g_bmgr, &p, cskip, new_size);
+    long long total = (long long)g_o.total, ns = new_size == -1 ? total - cskip : new_size;
+    bool valid = cskip <= total && ns >= 0 && ns >= -(long long)cskip;
+    /* octets actually taken from the source; when there are none the code refuses (ubuf_block_write cannot map an empty range): tolerated, an error leaves everything unchanged */
+    long long ext_a = ns - (cskip < 0 ? -(long long)cskip : 0), ext_b = total - (cskip > 0 ? cskip : 0), ext = ext_a < ext_b ? ext_a : ext_b;
+    if (ret == UBASE_ERR_NONE) {
+        VPOST(valid && p == &g_cp.ubuf && spec_fresh_wf((size_t)ns));
+        VPOST(g_nfree == 1 && g_freed[0] == ubuf);                     /* the old chain is released, once (by its head) */
+        long long src = (long long)gj + cskip;
+        /* content is compared with the entry snapshot of the areas: the old block may be gone */
+        uint8_t *b; size_t off;
+        VPOST(gj >= ns || src < 0 || src >= total || (spec_oloc(&g_o, (size_t)src, &b, &off) && off < AREASZ &&
+              g_cparea[g_cp.offset + gj] == g_oarea[b == g_areaA ? 0 : b == g_areaB ? 1 : b == g_areaC ? 2 : 3][off]));
+    } else {
+        VPOST(p == ubuf && spec_quiet(ubuf));
+        VPOST(!g_cp_given || (g_nfree == 1 && g_freed[0] == &g_cp.ubuf));
+        VPOST(g_cp_given || g_nfree == 0);
+        VPOST(!valid || ns > NB || !g_cp_given || ext <= 0);
+    }
+    VCANARY();
+}
+void h_from_opaque(void)
+{
+    BUILD_BLOCK(); BUILD_ALLOC(); VIN_ARR(uint8_t, data, NB); VIN(uint8_t, n); VIN(uint8_t, gj);
+    VASSUME(n <= NB);
+    struct ubuf *c = ubuf_block_alloc_from_opaque(&g_bmgr, data, n);
+    if (c != NULL) {
+        VPOST(c == &g_cp.ubuf && g_nfree == 0 && spec_fresh_wf(n));
+        VPOST(gj >= n || g_cparea[g_cp.offset + gj] == data[gj]);
+    } else
+        VPOST(!g_cp_given || (g_nfree == 1 && g_freed[0] == &g_cp.ubuf));
+    VPOST(spec_quiet(ubuf));
+    VCANARY();
+}
+void h_equal(void)
+{
+    BUILD_BLOCK(); BUILD_SECOND();
+    int ret = ubuf_block_equal(ubuf, other);
+    bool expect = g_oi.total == g_o.total;
+    for (int j = 0; j < 2 * AREASZ; j++) {
+        if ((size_t)j >= g_oi.total || !expect) break;
+        uint8_t v1, v2; if (!spec_byte(ubuf, j, &v1) || !spec_byte(other, j, &v2) || v1 != v2) expect = false;
+    }
+    VPOST(spec_quiet(ubuf) && spec_wf(other) && spec_unchanged(other, &g_oi));
+    VPOST((ret == UBASE_ERR_NONE) == expect);
+    VCANARY();
+}
+/* find(off, NFIND octets): OK <==> the word occurs at or after *off; then *off is its first occurrence */
+#ifndef NFIND
+#define NFIND 2
+#endif
+void h_find(void)
+{
+    BUILD_BLOCK(); VIN(uint8_t, start); VIN_ARR(uint8_t, w, 3);
+    size_t off = start;
+    int ret = NFIND == 1 ? ubuf_block_find(ubuf, &off, 1, (unsigned)w[0]) :
+              NFIND == 2 ? ubuf_block_find(ubuf, &off, 2, (unsigned)w[0], (unsigned)w[1]) :
+                           ubuf_block_find(ubuf, &off, 3, (unsigned)w[0], (unsigned)w[1], (unsigned)w[2]);
+    bool found = false; size_t first = 0;
+    for (int j = 0; j < 3 * AREASZ + 1; j++) {
+        if ((size_t)j + NFIND > g_o.total) break;
+        if ((size_t)j < start || found) continue;
+        bool all = true;
+        for (int k = 0; k < NFIND; k++) { uint8_t v; if (!spec_byte(ubuf, (size_t)j + k, &v) || v != w[k]) all = false; }
+        if (all) { found = true; first = j; }
+    }
+    VPOST(spec_quiet(ubuf));
+    VPOST((ret == UBASE_ERR_NONE) == found);
+    VPOST(!found || off == first);
+    VCANARY();
+}
 #ifdef VENTRY
 VMAIN(VENTRY)
 #endif
